@@ -15,17 +15,19 @@ line is read back token by token; the no-space decisions are safe), `RenderPiece
 (output lines as pieces), `RenderShape.lean` (Render's loop produces well-formed pieces),
 `RenderRetok.lean` (assembly).
 
-`render_retokenizes` is PROVED for the token half (`render_retokenizes_partial`): for every
-stream of well-formed tokens and comments whose lines satisfy `linesOK` — what the parser
-guarantees and the harness checks on every accepted source (op `rok`) — and whose output has
-fewer than maxLine lines, the output of `Render` tokenizes again, to the same number of
-tokens, pairwise equal as texts or equal as numbers.  The comment half and `render_idempotent`
-are stated in full below and are OPEN as theorems; they are evaluated on the implementation,
-and the models tied to it byte-for-byte, on every run.
+`render_retokenizes` is PROVED except for "the output parses" (`render_retokenizes_partial`): for
+every stream of well-formed tokens and comments with non-decreasing lines that satisfy `linesOK`
+— what Tokenize and the parser guarantee and the harness checks on every accepted source (op
+`rok`) — and whose output has fewer than maxLine lines, the output of `Render` tokenizes again,
+to the same number of tokens, pairwise equal as texts or equal as numbers, with the same
+interleaved sequence of tokens and comments (`Proof/RenderItems.lean`, `RenderShape.lean`).
+`render_idempotent` is stated in full below and is OPEN as a theorem; it is evaluated on the
+implementation, and the models tied to it byte-for-byte, on every run.
 -/
 import WuffsVerif.Proof.RenderNum
 import WuffsVerif.Proof.RenderPairs
 import WuffsVerif.Proof.RenderRetok
+import WuffsVerif.Proof.RenderNumIdem
 
 namespace WuffsVerif.Props.C12
 open WuffsVerif.FmtToken WuffsVerif.Render WuffsVerif.Gen.C12
@@ -37,28 +39,24 @@ abbrev Bytes := List UInt8
 /-- token texts equal, or both numeric literals of equal value (`Render.tokEquiv`) -/
 abbrev tokEquiv (a b : Tok) : Prop := WuffsVerif.Render.tokEquiv a b
 
-/-- the non-empty comments in order, trailing spaces removed -/
-def commentList (comments : Array Bytes) : List Bytes :=
-  (comments.toList.filter (fun c => !c.isEmpty)).map stripTrailingSpaces
+/-- The interleaved sequence of tokens and comments in source order (`Render.items`,
+`Proof/RenderItems.lean`): before a token, the non-empty comments (trailing spaces removed) of the
+lines before the token's line that have not been listed yet; a comment on a token's own line
+follows the tokens of that line; at the end, the remaining comments. -/
+abbrev items (toks : List Tok) (comments : Array Bytes) : List Item := WuffsVerif.Render.items toks comments
 
-/-- The interleaved sequence of tokens and comments in source order
-(a comment follows the tokens of its own line). -/
-def items (toks : List Tok) (comments : Array Bytes) : List (Bool × Bytes × Nat) :=
-  let cs := (comments.toList.zipIdx.filter (fun c => !c.1.isEmpty)).map
-    (fun c => (true, stripTrailingSpaces c.1, 2 * c.2 + 1))
-  let ts := toks.map (fun t => (false, t.text, 2 * t.line))
-  (ts ++ cs).mergeSort (fun a b => a.2.2 ≤ b.2.2)
+/-- two item sequences agree item by item: tokens as `tokEquiv`, comments literally -/
+abbrev ItemsAgree (a b : List Item) : Prop := Forall2 itemEquiv a b
 
 /-- `render_retokenizes`, full statement.  `Accepts` stands for the part of wuffsfmt's gate
-that is not modelled (`parse.Parse` succeeds); for the pairs of `isBad` (`. .`, `+ =` …),
+that is not modelled (`parse.Parse` succeeds); for the pairs of `badPair` (`. .`, `+ =` …),
 which no parsable program contains, the statement is false without it. -/
 def RenderRetokenizes (Accepts : List Tok → Prop) : Prop :=
   ∀ (src out : Bytes) (toks : List Tok) (comments : Array Bytes),
     tokenize src = some (toks, comments) → Accepts toks → render toks comments = some out →
     ∃ toks' comments', tokenize out = some (toks', comments') ∧
       toks.length = toks'.length ∧ (∀ p ∈ toks.zip toks', tokEquiv p.1 p.2) ∧
-      (items toks comments).map (·.1) = (items toks' comments').map (·.1) ∧
-      commentList comments = commentList comments' ∧ Accepts toks'
+      ItemsAgree (items toks comments) (items toks' comments') ∧ Accepts toks'
 
 /-- `render_idempotent`, full statement. -/
 def RenderIdempotent (Accepts : List Tok → Prop) : Prop :=
@@ -66,57 +64,78 @@ def RenderIdempotent (Accepts : List Tok → Prop) : Prop :=
     tokenize src = some (toks, comments) → Accepts toks → render toks comments = some out →
     fmt out = some out
 
--- OPEN: theorem render_retokenizes : RenderRetokenizes ParserAccepts   (comment half: the comments and
---   their interleaving with the tokens; the token half is `render_retokenizes_partial` below)
+-- OPEN: theorem render_retokenizes : RenderRetokenizes ParserAccepts
+--   PROVED below (`render_retokenizes_partial`): everything but the last conjunct, for every stream with
+--   the decidable hypothesis `streamOK` (instead of "is a result of Tokenize that the parser accepts") whose
+--   output has fewer than maxLine lines.  Missing: a model of lang/parse (`Accepts toks'`: the output parses;
+--   and `Accepts toks → streamOK`, which the harness checks on every accepted source, op `rok`), and
+--   `tokenize src = some (toks, comments) → ` the token/comment part of `streamOK` (Tokenize produces
+--   well-formed tokens; false as it stands for a last token that is an unterminated string, which
+--   `linesOK` excludes).
 -- OPEN: theorem render_idempotent : RenderIdempotent ParserAccepts
---   Missing for the comment half: the bookkeeping that `flushComments` / `trailingComments` write every
---   comment exactly once and in order (needs the source lines to be non-decreasing), carried through
---   `Proof/RenderShape.lean`'s piece list — the pieces already fix the order of tokens and comments in the
---   OUTPUT (`Piece.out`, `Piece.outComment`).  Missing for idempotence: that Render's decisions (indent,
---   hanging, blank lines, varNameLength) depend on the line numbers only through equality / adjacency, which
---   the re-read stream preserves.  Both clauses are evaluated on the real Tokenize/Parse/Render for every
---   harness case, and `fmt` (Tokenize + Render of the models) is compared byte-for-byte with the
---   implementation.
+--   Missing: that Render's decisions (indent, hanging, blank lines, varNameLength) depend on the line numbers
+--   only through equality / adjacency, which the re-read stream (`piecesOut`, `piecesC`) preserves, and that
+--   what Render writes for a re-read number is the number again (`appendNum` is idempotent on its own output).
+--   The clause is evaluated on the real Tokenize/Parse/Render for every harness case, and `fmt` (Tokenize +
+--   Render of the models) is compared byte-for-byte with the implementation.
 
-/-! ## `render_retokenizes`, token half -/
+/-! ## `render_retokenizes` -/
 
 /-- The hypothesis on the token stream, decidable (driver op `rok`; the harness checks it on every
 source the real wuffsfmt accepts): every token is one `Tokenize` can produce (`wfTok`: a squiggly
 token of the tables, or a word / number / string text with its interned ID); every comment is empty
-or `//…` without a newline; and on every source line (`linesOK`) a token is left after the trailing
-semicolons are stripped, exactly one ";" is stripped if the last token left asks for an implicit
-semicolon and none otherwise, and no adjacent pair is "." before "." or "+"/"-" before "=". -/
+or `//…` without a newline; the token lines do not decrease; and on every source line (`linesOK`) a
+token is left after the trailing semicolons are stripped, exactly one ";" is stripped if the last
+token left asks for an implicit semicolon and none otherwise, and no adjacent pair is "." before "."
+or "+"/"-" before "=". -/
 def streamOK (toks : List Tok) (comments : Array Bytes) : Bool :=
-  toks.all wfTok && comments.toList.all wfComment && linesOK (toks.length + 1) toks
+  toks.all wfTok && comments.toList.all wfComment && sortedLinesB toks && linesOK (toks.length + 1) toks
 
-/-- `render_retokenizes_partial` (PROVED; the token half of `RenderRetokenizes`, for ALL streams):
-if `streamOK toks comments`, `Render` accepts, and its output has fewer than `maxLine` lines (see
-KNOWN_FINDINGS retok:too-many-lines), then the output tokenizes again, into the same number of
-tokens, and each output token equals the corresponding input token as a text, or both are numeric
-literals of the same value.  In particular wherever `Render` writes no space the tokenizer
-neither merges nor re-splits, the names before an aligned ":" and the padding are read back, the
-re-grouped numbers are numbers, and the implicit semicolons come back exactly where explicit or
-implicit ones were stripped. -/
+/-- `render_retokenizes_partial` (PROVED, for ALL streams; all of `RenderRetokenizes` except that the
+output parses): if `streamOK toks comments`, `Render` accepts, and its output has fewer than
+`maxLine` lines (see KNOWN_FINDINGS retok:too-many-lines), then the output tokenizes again, into the
+same number of tokens, each output token equal to the corresponding input token as a text or as a
+numeric literal of the same value, and the interleaved sequence of tokens and comments is the same
+(comments up to trailing spaces).  In particular wherever `Render` writes no space the tokenizer
+neither merges nor re-splits; the names before an aligned ":" and the padding are read back; the
+re-grouped numbers are numbers; the implicit semicolons come back exactly where explicit or implicit
+ones were stripped; every comment is written exactly once, on a line of its own or after the tokens
+of its line, in order. -/
 theorem render_retokenizes_partial (toks : List Tok) (comments : Array Bytes) (out : Bytes)
     (hok : streamOK toks comments = true) (hr : render toks comments = some out)
     (hnl : out.count 10 < maxLine) :
     ∃ toks' comments', tokenize out = some (toks', comments') ∧
-      toks.length = toks'.length ∧ ∀ p ∈ toks.zip toks', tokEquiv p.1 p.2 := by
+      toks.length = toks'.length ∧ (∀ p ∈ toks.zip toks', tokEquiv p.1 p.2) ∧
+      ItemsAgree (items toks comments) (items toks' comments') := by
   unfold streamOK at hok
-  rw [Bool.and_eq_true, Bool.and_eq_true] at hok
-  obtain ⟨⟨h1, h2⟩, h3⟩ := hok
+  rw [Bool.and_eq_true, Bool.and_eq_true, Bool.and_eq_true] at hok
+  obtain ⟨⟨⟨h1, h2⟩, h3⟩, h4⟩ := hok
+  exact render_retokenizes_items toks comments out
+    (fun t ht => List.all_eq_true.mp h1 t ht) (fun c hc => List.all_eq_true.mp h2 c hc) h4
+    (sortedLinesB_sound toks h3) hr hnl
+
+/-- the same without the comments (no need for non-decreasing lines) -/
+theorem render_retokenizes_tokens_partial (toks : List Tok) (comments : Array Bytes) (out : Bytes)
+    (h1 : toks.all wfTok = true) (h2 : comments.toList.all wfComment = true)
+    (h3 : linesOK (toks.length + 1) toks = true) (hr : render toks comments = some out)
+    (hnl : out.count 10 < maxLine) :
+    ∃ toks' comments', tokenize out = some (toks', comments') ∧
+      toks.length = toks'.length ∧ ∀ p ∈ toks.zip toks', tokEquiv p.1 p.2 := by
   obtain ⟨ps, _, _, _, htok, hlen, hrel⟩ := render_retokenizes_tokens toks comments out
     (fun t ht => List.all_eq_true.mp h1 t ht) (fun c hc => List.all_eq_true.mp h2 c hc) h3 hr hnl
   exact ⟨_, _, htok, hlen, hrel⟩
 
-/-- non-vacuity: the tokens of `x = 0X1f +y;` / `// c` / `{ .z }` satisfy the hypotheses, are rendered
-(`x = 0x1F + y`, `// c`, `{.z }`), and the theorem's conclusion can be observed -/
+/-- non-vacuity: the tokens of `x = 0X1f +y; // d` / `// c` / `{ .z }` satisfy the hypotheses, are rendered
+(`x = 0x1F + y  // d`, `// c`, `{.z }`), and the items of the source are: x = 0X1f + y ; (// d) (// c) { . z } ; -/
 example :
-    (match tokenize [120, 32, 61, 32, 48, 88, 49, 102, 32, 43, 121, 59, 10, 47, 47, 32, 99, 10, 123, 32, 46, 122, 32, 125, 10] with
+    (match tokenize [120, 32, 61, 32, 48, 88, 49, 102, 32, 43, 121, 59, 32, 47, 47, 32, 100, 10, 47, 47, 32, 99, 10, 123, 32, 46, 122, 32, 125, 10] with
      | some (toks, comments) =>
        streamOK toks comments &&
        render toks comments ==
-         some [120, 32, 61, 32, 48, 120, 49, 70, 32, 43, 32, 121, 10, 47, 47, 32, 99, 10, 123, 46, 122, 32, 125, 10]
+         some [120, 32, 61, 32, 48, 120, 49, 70, 32, 43, 32, 121, 32, 32, 47, 47, 32, 100, 10, 47, 47, 32, 99, 10, 123, 46, 122, 32, 125, 10] &&
+       items toks comments ==
+         [.tok [120], .tok [61], .tok [48, 88, 49, 102], .tok [43], .tok [121], .tok [59], .com [47, 47, 32, 100],
+          .com [47, 47, 32, 99], .tok [123], .tok [46], .tok [122], .tok [125], .tok [59]]
      | none => false) = true := by
   decide +kernel
 
@@ -128,6 +147,17 @@ equivalent token. -/
 theorem appendNum_value (s : Bytes) (v : Nat) (h : numValue s = some v) :
     numValue (appendNum s) = some v :=
   WuffsVerif.Render.appendNum_value s v h
+
+/-- `render_number_fixed_point` (an ingredient of `render_idempotent`, PROVED): what the repaired `Render`
+writes for a well-formed numeric literal (`numOut`: `appendNum`'s re-grouping, or the literal itself if
+that would not tokenize) is written unchanged when it is formatted again. -/
+theorem render_number_fixed_point (s : Bytes) (h : wfNumText s = true) :
+    numOut (numOut s) = numOut s ∧ appendNum (appendNum s) = appendNum s :=
+  ⟨numOut_idempotent s h, appendNum_idempotent s h⟩
+
+/-- non-vacuity: `0_1` (kept as it is: re-grouped it would be the legacy octal `01`) and `0X1f` (`0x1F`) -/
+example : wfNumText [48, 95, 49] = true ∧ numOut [48, 95, 49] = [48, 95, 49] ∧
+    wfNumText [48, 88, 49, 102] = true ∧ numOut [48, 88, 49, 102] = [48, 120, 49, 70] := by decide
 
 /-- non-vacuity: `0Xdead_beef` has a value -/
 example : numValue [48, 88, 100, 101, 97, 100, 95, 98, 101, 101, 102] = some 3735928559 := by decide
